@@ -106,6 +106,11 @@ def idCiphers (openResult : Option Bytes) : Ciphers := ⟨id, fun _ _ => openRes
 def optBytes? (s : String) : Option (Option Bytes) :=
   if s == "none" then some none else (ofHex? s).map some
 
+/-- the user table of the harness' SOCKS5 server: user/pass and a 255/255-byte pair -/
+def s5Check (u p : Bytes) : Bool :=
+  (u == "user".toUTF8.toList && p == "pass".toUTF8.toList) ||
+  (u == List.replicate 255 117 && p == List.replicate 255 112)
+
 def step (_ : Unit) (line : String) : Unit × String :=
   let bad := ((), "bad-op")
   let r : Option String := match fields line with
@@ -141,6 +146,19 @@ def step (_ : Unit) (line : String) : Unit × String :=
     | ["udpcliunpack", now, csid, sessOk, replayed, opened, ps, pl, h] => do
         pure (showR showASL (udpClientUnpack (idCiphers (← optBytes? opened)) (← int? now) (← csid.toNat?) (← bool? sessOk) (← bool? replayed)
           (← ofHex? h) (← ps.toNat?) (← pl.toNat?)))
+    | ["udpsrv", now, idLen, found, replayed, opened, ps, pl, h] => do
+        pure (showR showASL (udpServerReceive (idCiphers (← optBytes? opened)) (← int? now) (← idLen.toNat?) (← bool? found) (← bool? replayed)
+          (← ofHex? h) (← ps.toNat?) (← pl.toNat?)))
+    | ["direct", target, targetOnly, srcIsTarget, plen, maxLen] => do
+        match directServe Gen.C06.directRejectsTargetOnlyDomain (← addr? target) (← bool? targetOnly) (← bool? srcIsTarget) (← plen.toNat?) (← maxLen.toNat?) with
+        | none => pure "rejected"
+        | some r => pure (showR (fun (_ : Unit) => "packed") r)
+    | ["ssnone", h] => do
+        pure (showR (fun (x : Addr × Bytes) => x.1.render) (connAddrFromReader (← ofHex? h)))
+    | ["socks5srv", auth, tcp, udp, tcpLocal, fin, h] => do
+        let finish : Option UInt8 ← (if fin == "-" then some none else fin.toNat?.map (fun n => some (UInt8.ofNat n)))
+        pure (showR (fun (x : Addr × Bytes) => s!"{x.1.render} w={toHexField x.2}")
+          (s5Server (← bool? auth) s5Check (← bool? tcp) (← bool? udp) (← bool? tcpLocal) [1, 127, 0, 0, 1, 4, 56] finish (← ofHex? h)))
     | ["directpack", target, targetOnly, srcIsTarget, plen, maxLen] => do
         pure (showR (fun (_ : Unit) => "packed") (directServerPack (← addr? target) (← bool? targetOnly) (← bool? srcIsTarget) (← plen.toNat?) (← maxLen.toNat?)))
     | ["directcfg", target, targetOnly] => do
